@@ -315,6 +315,9 @@ where
                 });
             };
             *slot = value;
+            if !self.holes().is_empty() {
+                self.mut_holes().remove(&index);
+            }
             return Ok(());
         }
 
